@@ -183,10 +183,27 @@ func vxC07bRun(cfg vxCfg) (string, []int, []int) {
 	if mc.Thorough() {
 		stepV = 2
 	}
-	for _, v0 := range []int{0, 128, 255} {
+	type hist struct{ v0, stalled int }
+	hists := []hist{{0, 0}, {128, 0}, {255, 0}}
+	if cfg.NeverStop && !cfg.NoRpm {
+		// the fan stood still for a while earlier (the minimum was raised), then spins again
+		hists = append(hists, hist{0, 3}, hist{0, 300}, hist{255, 3}, hist{255, 300}, hist{128, 40})
+	}
+	for _, h := range hists {
+		v0 := h.v0
 		for v1 := 0; v1 <= 255; v1 += stepV {
 			fz := vxNewFixRole(cfg, "search")
 			fz.vxCycle(vxSym{Curve: v0, Rpm: 1000})
+			gaveUp := false
+			for k := 0; k < h.stalled; k++ {
+				if o := fz.vxCycle(vxSym{Curve: v0, Rpm: 0}); o.Err != nil {
+					gaveUp = true // stalled at maximum: regulation of this fan ends, nothing to compare
+					break
+				}
+			}
+			if gaveUp {
+				break
+			}
 			o1 := fz.vxCycle(vxSym{Curve: v1, Rpm: 1000})
 			base := mc.Clone(fz.ctl, fz.pmap, fz.ctl.pwmValuesWithDistinctTarget)
 			files := fz.vxSaveFiles()
@@ -194,7 +211,7 @@ func vxC07bRun(cfg vxCfg) (string, []int, []int) {
 				fz.vxAttach(&vxSnap{Ctl: mc.Clone(base, fz.pmap, base.pwmValuesWithDistinctTarget), Files: files})
 				o2 := fz.vxCycle(vxSym{Curve: v2, Rpm: 1000})
 				if o2.Req < o1.Req || o2.DevPwm < o1.DevPwm {
-					return fmt.Sprintf("history curve %d, then %d -> request %d written %d; curve RISES to %d -> request %d written %d", v0, v1, o1.Req, o1.DevPwm, v2, o2.Req, o2.DevPwm), reqs, devs
+					return fmt.Sprintf("history curve %d (then %d cycles with 0 RPM), then %d -> request %d written %d; curve RISES to %d -> request %d written %d", v0, h.stalled, v1, o1.Req, o1.DevPwm, v2, o2.Req, o2.DevPwm), reqs, devs
 				}
 			}
 		}
